@@ -195,7 +195,7 @@ class Env:
             env["WILD_VERIF_FAULT"] = f"{point}:{kind}"
         if setup == "fork-sigchld-ign":
             # the invoker ignores SIGCHLD (inherited across exec): the kernel reaps the worker itself and waitpid() fails with ECHILD
-            args = ["/bin/sh", "-c", "trap '' CHLD; exec \"$@\"", "sh"] + args
+            args = ["/bin/bash", "-c", "trap '' CHLD; exec \"$@\"", "sh"] + args
         p = subprocess.run(args, cwd=os.path.dirname(out), env=env, stdout=subprocess.PIPE, stderr=subprocess.PIPE, timeout=120)
         # The state of the output is read immediately: the property is about the moment the invoker sees the exit status.
         state = "complete" if ref else self.state(out)
